@@ -1558,7 +1558,24 @@ def ev(t, env, memo=None):
         return memo[k]
     r = _ev(t, env, memo)
     memo[k] = r
+    w = env.get("watch")
+    if w is not None and k in w:
+        for opn, flags, a, b, loc in w[k]:
+            _check_overflow(opn, flags, ev(a, env, memo), ev(b, env, memo), a[1], loc)
     return r
+
+
+def _check_overflow(opn, flags, x, y, w, loc):
+    M = mask(w)
+    if "nsw" in flags:
+        sx, sy = _signed(x, w), _signed(y, w)
+        r = sx + sy if opn == "add" else sx - sy if opn == "sub" else sx * sy
+        if not (-(1 << (w - 1)) <= r < (1 << (w - 1))):
+            raise Poison("signed overflow in %s nsw i%d (%d, %d) at %s" % (opn, w, sx, sy, loc or "?"))
+    if "nuw" in flags:
+        r = x + y if opn == "add" else x - y if opn == "sub" else x * y
+        if not (0 <= r <= M):
+            raise Poison("unsigned wrap in %s nuw i%d (%d, %d) at %s" % (opn, w, x, y, loc or "?"))
 
 
 def _ev(t, env, memo):
@@ -1592,6 +1609,19 @@ def _ev(t, env, memo):
         return M if ev(t[2], env, memo) else 0
     if o == "not":
         return ~ev(t[2], env, memo) & M
+    if o in ("and", "or") and w == 1:
+        # boolean and/or come (also) from selects: an absorbing operand shields a poison operand
+        absorbing = 0 if o == "and" else 1
+        pending = None
+        for x in t[2:]:
+            try:
+                if ev(x, env, memo) == absorbing:
+                    return absorbing
+            except Poison as p:
+                pending = p
+        if pending is not None:
+            raise pending
+        return 1 - absorbing
     if o in ("and", "or", "xor", "add", "mul"):
         vs = [ev(x, env, memo) for x in t[2:]]
         v = vs[0]
